@@ -2499,3 +2499,75 @@ def expand_derived_tree_properties(tree, props):
         _T().visit(st)
     ast.fix_missing_locations(tree)
     return done
+
+
+# ---------------------------------------------------------------------------------------------------------------------
+# a module-level list assembled from named pieces
+# ---------------------------------------------------------------------------------------------------------------------
+def splice_starred_displays(tree):
+    """`ALL = [*A, *B, x]` / `ALL = A + B` at module level, with A and B module-level list / tuple displays that are bound
+    once and never changed (no method call, item store or rebinding anywhere in the module): ALL reads as the one display
+    with the pieces written out in place."""
+    binds = {}
+    for st in tree.body:
+        if isinstance(st, (ast.Assign, ast.AnnAssign)) and getattr(st, 'value', None) is not None:
+            for t in (st.targets if isinstance(st, ast.Assign) else [st.target]):
+                if isinstance(t, ast.Name):
+                    binds.setdefault(t.id, []).append(st)
+    touched = set()
+    for n in ast.walk(tree):
+        if isinstance(n, ast.Call) and isinstance(n.func, ast.Attribute) and isinstance(n.func.value, ast.Name) and n.func.attr in (
+                'append', 'extend', 'insert', 'remove', 'pop', 'sort', 'reverse', 'clear', '__setitem__', '__delitem__'):
+            touched.add(n.func.value.id)
+        if isinstance(n, ast.Subscript) and isinstance(n.ctx, (ast.Store, ast.Del)) and isinstance(n.value, ast.Name):
+            touched.add(n.value.id)
+        if isinstance(n, ast.AugAssign) and isinstance(n.target, ast.Name):
+            touched.add(n.target.id)
+        if isinstance(n, (ast.Global, ast.Nonlocal)):
+            touched.update(n.names)
+
+    def piece(name, depth=0):
+        if depth > 4 or name in touched or len(binds.get(name, [])) != 1:
+            return None
+        return elements(binds[name][0].value, depth + 1)
+
+    def elements(v, depth=0):
+        if isinstance(v, (ast.List, ast.Tuple)):
+            out = []
+            for e in v.elts:
+                if isinstance(e, ast.Starred):
+                    if not isinstance(e.value, ast.Name):
+                        return None
+                    sub = piece(e.value.id, depth)
+                    if sub is None:
+                        return None
+                    out.extend(sub)
+                else:
+                    out.append(e)
+            return out
+        if isinstance(v, ast.BinOp) and isinstance(v.op, ast.Add):
+            a, b = elements(v.left, depth), elements(v.right, depth)
+            return None if a is None or b is None else a + b
+        if isinstance(v, ast.Name):
+            return piece(v.id, depth)
+        return None
+    done = []
+    for name, sts in binds.items():
+        if len(sts) != 1 or name in touched:
+            continue
+        v = sts[0].value
+        composite = (isinstance(v, (ast.List, ast.Tuple)) and any(isinstance(e, ast.Starred) for e in v.elts)) or (isinstance(v, ast.BinOp) and isinstance(v.op, ast.Add))
+        if not composite:
+            continue
+        els = elements(v)
+        if els is None:
+            continue
+        new = ast.List(elts=[_clone(e) for e in els], ctx=ast.Load()) if not isinstance(v, ast.Tuple) else ast.Tuple(elts=[_clone(e) for e in els], ctx=ast.Load())
+        sts[0].value = ast.copy_location(new, v)
+        for e in new.elts:
+            for n in ast.walk(e):
+                if hasattr(n, 'lineno'):
+                    pass
+        ast.fix_missing_locations(sts[0])
+        done.append(name)
+    return done
